@@ -31,8 +31,14 @@ func gpkgPipe(args []string) int {
 	rng := rand.New(rand.NewSource(*seed))
 	st := randTable(rng, "polys", *count, gsgpkg.Polygon)
 	st.extra, st.gcolPos, st.srs = *extra, *extra, 28992
+	empties := map[int]bool{}
 	for i := range st.rows {
 		st.rows[i].g = geom.Polygon{{{float64(i + 1), 0}, {float64(i + 1), 1}, {float64(i + 2), 0}}}
+		if rng.Intn(10) == 0 {
+			// POLYGON EMPTY: the polygon function returns nothing for it, so it must reach no target
+			st.rows[i].g, st.rows[i].empty = geom.Polygon{}, true
+			empties[i+1] = true
+		}
 	}
 	pts := randTable(rng, "pts", *count/3, gsgpkg.Point)
 	pts.srs = 28992
@@ -58,8 +64,11 @@ func gpkgPipe(args []string) int {
 		ptargets[id] = tg
 	}
 	f := func(p geom.Polygon, tmIDs []tms20.TMID) map[tms20.TMID][]geom.Polygon {
-		i := p[0][0][0]
 		out := map[tms20.TMID][]geom.Polygon{}
+		if len(p) == 0 {
+			return out
+		}
+		i := p[0][0][0]
 		for _, id := range tmIDs {
 			out[id] = []geom.Polygon{{{{i, float64(id)}, {i, float64(id) + 1}, {i + 1, float64(id)}}}}
 		}
@@ -91,14 +100,19 @@ func gpkgPipe(args []string) int {
 			if int(pg[0][0][1]) != id {
 				wrong++ // the geometry computed for another tile matrix
 			}
-			if int(pg[0][0][0]) != k+1 {
-				disorder++
+			if k > 0 {
+				if prev, ok := td.Geoms[k-1].(geom.Polygon); ok && len(prev) == 1 && len(prev[0]) == 3 && prev[0][0][0] >= pg[0][0][0] {
+					disorder++
+				}
+			}
+			if empties[int(pg[0][0][0])] {
+				wrong++
 			}
 		}
 		otherRows = append(otherRows, len(d["pts"].Rows))
 	}
 	out := newJSONL("-")
-	out.put(map[string]any{"e": "GpkgPipe", "targets": *nt, "extra": *extra, "expected": *count, "rows": rows, "wrong_geom": wrong, "disorder": disorder,
+	out.put(map[string]any{"e": "GpkgPipe", "targets": *nt, "extra": *extra, "expected": *count - len(empties), "rows": rows, "wrong_geom": wrong, "disorder": disorder,
 		"other_expected": *count / 3, "other_rows": otherRows})
 	out.close()
 	return 0
